@@ -94,6 +94,7 @@ type Sched struct {
 	LockPoints   bool                    // mutex operations are schedule points (else they are free: one thread at a time)
 	Shared       map[*vhook.RWMutex]bool // mutexes whose guarded accesses are checked by the lockset monitor
 	OnLock       func()                  // called by the running thread at every lock acquisition (observation hook)
+	FieldsAll    bool                    // the field rule (AccessField) covers every scope, also scopes created during the run
 	UnlockPoints bool                    // also make every unlock a schedule point (redundant, for cross-checking)
 	MaxSteps     int                     // 0 = default 20000
 	Record       bool                    // keep Trace
@@ -737,7 +738,7 @@ type fieldAccess struct {
 // write).  Fields that are only written before the scope is shared never
 // conflict.
 func (s *Sched) AccessField(m *vhook.RWMutex, field string, write bool, site string) {
-	if s.aborting || s.Shared == nil || !s.Shared[m] {
+	if s.aborting || (!s.FieldsAll && (s.Shared == nil || !s.Shared[m])) {
 		return
 	}
 	s.mu.Lock()
